@@ -263,6 +263,19 @@ def own_history(k):
     return _own_cache[k]
 
 
+TRANSPARENT_CONFIGS = [
+    b"[core]\n\tlooseCompression = 0\n[pack]\n\tcompression = 9\n",
+    b"[core]\n\tcompression = 0\n",
+    b"[pack]\n\tindexVersion = 1\n",
+    b"[pack]\n\tdeltaWindowSize = 0\n\tdepth = 1\n",
+    b"[pack]\n\tdepth = 50\n\tdeltaWindowSize = 50\n\tthreads = 2\n",
+    b"[core]\n\tfsyncObjectFiles = true\n",
+    b"[core]\n\tmultiPackIndex = false\n\tcommitGraph = false\n",
+    b"[core]\n\tpackedGitLimit = 1\n\tdeltaBaseCacheLimit = 1\n",
+    b"[core]\n\tbigFileThreshold = 1048576\n[pack]\n\tbigFileThreshold = 64\n",
+]
+
+
 def build_repo(path, objs, ids, refs, head, peel, layout, packed_refs, cgraph=False, first=None):
     """Materialise a bare repository.
 
@@ -271,6 +284,12 @@ def build_repo(path, objs, ids, refs, head, peel, layout, packed_refs, cgraph=Fa
     repository after `git gc` and one more push) | dulpack (dulwich's pack_loose_objects).
     """
     G.init_bare(path)
+    # storage/packing options that must not change what a transfer delivers; chosen as a pure function of the case (half of
+    # the repositories keep the default configuration)
+    k = (len(ids) * 7 + len(refs) * 3 + len(layout)) % (2 * len(TRANSPARENT_CONFIGS))
+    if k < len(TRANSPARENT_CONFIGS):
+        with open(os.path.join(path, "config"), "ab") as f:
+            f.write(TRANSPARENT_CONFIGS[k])
     nobm = ["-c", "repack.writeBitmaps=false"]
     if layout in ("gitpack2", "gitbitmap2") and first:
         G.write_loose(path, objs, first[0])
